@@ -82,7 +82,8 @@ type Plan struct {
 	Cfg     *CfgSpec         `json:"cfg"`
 	Order   int              `json:"order"`
 	Ops     []Op             `json:"ops"`
-	Conc    []Op             `json:"conc,omitempty"` // C15: requests issued concurrently after Ops
+	Conc    []Op             `json:"conc,omitempty"`    // C15: requests issued concurrently after Ops
+	Metrics bool             `json:"metrics,omitempty"` // C15: a metrics gatherer is installed (metrics.Block() takes its lock)
 }
 
 // ---------------------------------------------------------------------------
